@@ -106,6 +106,30 @@ CLAIMED = {
     ref="DESIGN.md §2 C05"),
 }
 
+LINTS = ("; shared shape lints on the property's anchor files (sa/lints.py): dead parameter, crossed positional arguments, bound method used as truth value, "
+         "tuple swap of array views, rebinding/memoising shadow attributes of ndarray subclasses, integer-dtype output allocation, mixed-case string comparison%s, "
+         "each with an embedded positive example that must fire on every run")
+EXTRA = {
+ "C02": "; interval abstract interpretation of sqrt/arccos arguments (DOMAIN-GUARD); tolerance gates mapped to rotation-angle bands from the extracted closed forms (BAND.gate)",
+ "C03": "; interval abstract interpretation of sqrt/arccos arguments (DOMAIN-GUARD); stale shadow attribute (.A) modelling of ndarray-subclass arithmetic in UNIT-RET",
+ "C04": "; interval DOMAIN-GUARD, POSE-DIV (divisors of the singularity-free estimator), scale-invariant QUEST inputs, structural discovery of Newton updates",
+ "C05": "; interval SHORT-ARC rule for AQUA's delta quaternions; interpretation-based gradient step",
+ "C06": "; option-forwarding clause of PROTOCOL; MODULE-STATE lint (module-level RNG objects, argument-dependent global caches)",
+ "C07": "; TWIN.band (both arms gate their limit shortcuts on the same angle band), NO-SIGN-ZERO for metrics, DOMAIN-GUARD",
+ "C08": "; PROTOCOL option forwarding for the batch integrator; ANGVEL.gate (no tolerance gate between consecutive samples)",
+ "C09": "; q_conj row-wise twin",
+ "C10": "; LOG.arm agreement of every inequality-guarded arm of DCM.log with the generic closed form",
+ "C13": "; axis-aware norm value numbers; one-level continuation into private helpers with the caller's value numbers and facts",
+ "C14": "; RELOAD must-call rule shared with C15",
+ "C15": "; KEEP-DATE (date=None reload is the identity on the date state); MODULE-STATE lint",
+ "C16": "; every inequality-guarded arm of normal_gravity returns the same closed form; LIMIT (sphere arm is the f -> 0 limit of the general arm, on the extracted closed forms)",
+ "C17": "; FIXPOINT obligation on the converged state of the latitude iteration; unit-aware modulo (x % m is a whole number of turns only in x's own angle unit)",
+ "C18": "; LOG.arm agreement; NO-SIGN-ZERO for metrics",
+ "C19": "; MODULE-STATE lint",
+ "C20": "; same-source rule (quaternions and angular velocities derive from one value number of ang_pos); RPY round trip of the array route",
+}
+MODULE_STATE = {"C06", "C15", "C19"}
+
 NOT_YET = "check not built yet in this session (work in progress; see DESIGN.md §2 for the planned static rules)"
 
 def main():
@@ -127,7 +151,7 @@ def main():
             "engine": "sa",
             "level_claimed": {"category": "other", "text": c["level"], "design_ref": c["ref"]},
             "level_note": c["note"],
-            "technique": c["technique"],
+            "technique": c["technique"] + EXTRA.get(pid, "") + LINTS % (", process-wide hidden state" if pid in MODULE_STATE else ""),
         })
     man = {
         "version": 1,
